@@ -259,6 +259,61 @@ def unpack_compare(tools, img, exp, dest, sub=None):
     return bad[:3]
 
 
+def packdir_roundtrip(tools, img, dest):
+    """image -> rdsquashfs -u (all attributes restored) -> directory -> gensquashfs --pack-dir -k -x -> image': both images must hold
+    the same tree (kinds, permission bits, owners, time stamps, targets, device numbers, contents, xattrs, hard-link groups)"""
+    shutil.rmtree(dest, ignore_errors=True)
+    try:
+        a0 = fidelity.decoded_tree(sqfsimg.load(img))
+    except sqfsimg.DecodeError as ex:
+        return ["image cannot be decoded: %s" % ex]
+    # Linux refuses user.* attributes on anything but regular files and directories: a host limit, not the tool's
+    xattr_ok = not any(n["kind"] not in ("file", "dir") and any(k.startswith(b"user.") for k in n["xattrs"]) for n in a0.values())
+    rc, o, e = sh([tools + "/rdsquashfs", "-q", "-u", "/", "-p", dest, "--chmod", "--chown", "--set-times"] + (["--set-xattr"] if xattr_ok else []) + [img], timeout=120)
+    if rc != 0:
+        shutil.rmtree(dest, ignore_errors=True)
+        return ["rdsquashfs -u with all attribute options fails (rc %d): %s" % (rc, e.decode(errors="replace")[-120:])]
+    img2 = img + ".repacked"
+    rc, o, e = sh([tools + "/gensquashfs", "-q", "-f", "-c", "gzip", "-k", "-x", "-D", dest, img2], timeout=300)
+    shutil.rmtree(dest, ignore_errors=True)
+    if rc != 0:
+        return ["gensquashfs --pack-dir on the unpacked tree fails (rc %d): %s" % (rc, e.decode(errors="replace")[-120:])]
+    try:
+        a = fidelity.decoded_tree(sqfsimg.load(img))
+        b = fidelity.decoded_tree(sqfsimg.load(img2))
+    except sqfsimg.DecodeError as ex:
+        return ["repacked image cannot be decoded: %s" % ex]
+    finally:
+        if os.path.exists(img2):
+            os.unlink(img2)
+    bad = []
+
+    def groups(t):
+        g = {}
+        for p_, n in t.items():
+            g.setdefault(n.get("inum"), []).append(p_)
+        return sorted(sorted(v) for v in g.values() if len(v) > 1)
+    for p_ in sorted(set(a) | set(b)):
+        if p_ == b"":
+            continue                                       # the root takes the packer's defaults
+        x, y = a.get(p_), b.get(p_)
+        if x is not None and x["kind"] == "sock":
+            continue                                       # sockets are not unpacked
+        if x is None or y is None:
+            bad.append("%r exists only in the %s image" % (p_, "first" if y is None else "repacked"))
+            continue
+        for k in ("kind", "mode", "uid", "gid", "mtime", "target", "devno", "sha") + (("xattrs",) if xattr_ok else ()):
+            if k == "mtime" and x["kind"] == "slink":
+                continue                                   # symlink time stamps cannot be restored portably
+            if x.get(k) != y.get(k):
+                bad.append("%r: %s is %r in the first image and %r after unpack + pack-dir" % (p_, k, x.get(k), y.get(k)))
+                break
+    ga = [g for g in groups(a) if not any(a[p_]["kind"] == "sock" for p_ in g)]
+    if not bad and ga != groups(b):
+        bad.append("HL:hard-link groups %s became %s" % (ga[:3], groups(b)[:3]))
+    return bad[:3]
+
+
 def listing_size_boundary(tools, work, rep, ev):
     """the 64 KiB listing boundary: a directory with < 256 entries whose listing has exactly 65529..65537 bytes (a basic directory
     inode stores listing size + 3 in 16 bits).  The adjustable name is tuned by measuring the produced image."""
@@ -484,6 +539,7 @@ def run(tier):
                 subdirs = sorted(p for p, nd in s.nodes.items() if nd["kind"] == "dir" and "/" not in p and any(q.startswith(p + "/") for q in s.nodes))
                 if subdirs:
                     res["reader"] += unpack_compare(tools, out, exp, out + ".uns", sub=subdirs[0])
+                res["reader"] += packdir_roundtrip(tools, out, out + ".rt")
             rc3, o3, e3 = sh([tools + "/rdsquashfs", "-d", out], timeout=60)
             if rc3 != 0 or len([l for l in o3.split(b"\n") if l.strip()]) != len(s.nodes) + len(getattr(s, "links", {})):
                 res["reader"].append("rdsquashfs -d: rc %d, %d lines for %d entries" % (rc3, len([l for l in o3.split(b'\n') if l.strip()]), len(s.nodes) + len(getattr(s, "links", {}))))
@@ -505,7 +561,12 @@ def run(tier):
                 key = "fidelity-" + ("xattr" if any("xattrs" in x for x in res["diffs"]) else "tree")
                 rep.violation(key, "%s: image does not read back as packed: %s" % (label, res["diffs"][:3]), data={"case": label, "diffs": res["diffs"]})
             elif res["reader"]:
-                rep.violation("reader-disagrees", "%s: %s" % (label, res["reader"][:2]))
+                hl = [x[3:] for x in res["reader"] if x.startswith("HL:")]
+                other = [x for x in res["reader"] if not x.startswith("HL:")]
+                if hl:
+                    rep.violation("unpack-loses-hard-links", "%s: image -> rdsquashfs -u -> gensquashfs --pack-dir: %s (every name of a group is unpacked as a file of its own)" % (label, hl[0]))
+                if other:
+                    rep.violation("reader-disagrees", "%s: %s" % (label, other[:2]))
     evaluations += listing_size_boundary(tools, work, rep, ev)
     ev.sample({"kind": "scenario-runs", "cases": ["%s -c %s %s" % (os.path.basename(j[0].dir), j[2], " ".join(j[1] + j[3])) for j in jobs[:8]]}, limit=6)
     # ---- unrepresentable inputs must be refused ----------------------------------------------------------
